@@ -488,6 +488,16 @@ def run(run):
     assocpasses(run, fx)
     from . import c03
     c03.nomutpos(run, vm)        # no pass that runs after associateChars may insert or delete slots: the loader types every pass from m_pPass on as POSITIONING or later (shared with C03)
+    from . import c04 as c04_
+    ipc_ = 'PUT_COPY leaves the current slot a live, correctly linked slot (interpreted)'
+    try:
+        cases_, bad_ = c04_.putcopy_exec(run, vm)      # a slot that stays marked DELETED is freed while still linked: the stream runs into the free list and the char-info indices point nowhere (shared with C04)
+        if bad_:
+            run.violated('CINFO', ipc_, vm.handlers['put_copy'].where(), bad_)
+        else:
+            run.held('CINFO', ipc_, vm.handlers['put_copy'].where(), '%d abstract executions' % cases_)
+    except AnalysisBroken as ex:
+        run.broken('CINFO', ipc_, str(ex), '')
     ac = fx.one('graphite2::Segment::associateChars')
     try:
         cases, prob = assocexec(run, fx)
